@@ -207,6 +207,23 @@ func (x *Exec) evalVal(env *SpecEnv, e Expr) Val {
 			hi = x.coerce(x.evalVal(env, e.Hi), types.Typ[types.Int]).T
 		}
 		return Val{T: Term{app("mk_slice", ref, x.iAdd(off, lo), x.iSub(hi, lo), x.iSub(cp, lo)), "Slice"}, Typ: base.Typ}
+	case ETypeAssert:
+		v := x.evalVal(env, e.X)
+		if v.T.Sort != "Iface" {
+			panic(specErr("type assertion on a non-interface value in %s", e.exprString()))
+		}
+		at := x.resolveType(env, e.Type)
+		is := mkEq(Term{app("i_typ", v.T), "Int"}, x.typeID(at))
+		if e.Test {
+			return Val{T: is, Typ: types.Typ[types.Bool]}
+		}
+		pv := Term{app("i_val", v.T), "Int"}
+		switch at.Underlying().(type) {
+		case *types.Pointer, *types.Map, *types.Chan, *types.Signature:
+			return Val{T: pv, Typ: at}
+		}
+		_, unbox := x.boxFns(at, true)
+		return Val{T: Term{app(unbox, pv), x.S.SortOf(at)}, Typ: at}
 	case EQuant:
 		return x.evalQuant(env, e)
 	case ECall:
